@@ -215,6 +215,19 @@ CHECKS = {
             "trusted: date masking (regex for XML, message field clear + deterministic serialisation for protobuf); the "
             "pristine reference is produced in the same process by constructing and immediately using a writer",
             "DESIGN.md §4 C15"),
+    "C18": ("exhaustive enumeration of read-only operation sequences (every edge of the state graph must be a self-loop) from "
+            "14 start states on real objects, comparing a deep public snapshot incl. behavioural probes before/after every "
+            "operation and the XML/protobuf export with that of an untouched twin",
+            "Start states: base scenario, point-mass trajectories as CustomState without orientation and as PMState, uncertain "
+            "states, goal lanelets (plain dict for some goal states, unsorted lists, all goal states), default arguments, "
+            "scenarios read back from XML and protobuf (defaultdict goal tables) and 4 shipped fixture files. 26 operations "
+            "(occupancy/state queries, occupancy_set, scenario queries and filters, lanelet lookups and successor search, "
+            "light states, goal checks, ==/hash/str, deepcopy, pickle, draw+render twice, XML/protobuf writers, validity "
+            "check). quick: all singles + all ordered pairs over a 14-operation core; thorough: all ordered pairs + all triples "
+            "over an 8-operation core.",
+            "trusted: mc/snap.py snapshot (public accessors, declared/used attributes and class of every state, dict types, "
+            "registries) plus two behavioural probes; exceptions raised by an operation are other properties' business",
+            "DESIGN.md §4 C18"),
 }
 
 NOT_YET = {}
